@@ -5,6 +5,8 @@ load_real.py — runs the real amoco loaders in-process for C15 and dumps canoni
     Loaded.objects(names) → [[vaddr, ["raw", hex] | ["ex", [["s", id, k], …]], endian], …]  of zone None
     Loaded.flat(a, n, names) → per byte: int | None (bottom) | ("slot", name, k)
     Loaded.window(a)  → first item of mmap.read(a, maxlen) (what read_instruction hands to the disassembler)
+    elf_routes() → [(table, e_machine)] every ELF loader registered in DefineLoader.LOADERS once load_program has run
+    load_route(data, table, e_machine, pagesize) → Loaded | None   the task built by that registered loader
 """
 import logging
 
@@ -200,3 +202,64 @@ def load(data, pagesize=4096, cpu=None, aslr=False):
     if t is None:
         return None
     return Loaded(t)
+
+
+def elf_routes():
+    """[(table, e_machine)] of every loader for ELF programs in the registry `DefineLoader.LOADERS` that
+    `amoco.system.core.load_program` consults ("elf", then the fallback "elf-baremetal", and any further table whose name
+    starts with "elf"), read from the registry after load_program has imported its loader packages."""
+    setup()
+    from amoco.system import core
+    try:
+        core.load_program(b"\x90\x90\x90\x90")          # its first call imports the loader packages, which register themselves
+    except Exception:
+        pass
+    out = []
+    for table, d in core.DefineLoader.LOADERS.items():
+        if isinstance(table, str) and table.startswith("elf") and isinstance(d, dict):
+            out += [(table, k) for k in d if isinstance(k, int)]
+    return sorted(out)
+
+
+def route_is_first(table, machine):
+    """is LOADERS[table][machine] the loader load_program tries first for an ELF of that machine?"""
+    from amoco.system.core import DefineLoader
+    first = DefineLoader.LOADERS.get("elf", {})
+    return table == "elf" or machine not in first
+
+
+def load_route(data, table, machine, pagesize=4096):
+    """the task the loader registered as LOADERS[table][machine] builds for the program: through `load_program` when
+    that loader is the first one load_program tries for the machine (or the only one), else — a fallback shadowed by a
+    working first loader — by calling the registered loader on `read_program(data)` the way load_program does (an
+    exception of the loader means: no task).  → (Loaded | None, how)"""
+    conf = setup()
+    from amoco.system import core
+    old, olda = conf.System.pagesize, conf.System.aslr
+    conf.System.pagesize = pagesize
+    conf.System.aslr = False
+    try:
+        if route_is_first(table, machine):
+            how = "load_program"
+            t = core.load_program(data)
+        else:
+            how = "registered-loader"
+            p = core.read_program(data)
+            try:
+                t = core.DefineLoader.LOADERS[table][machine](p)
+            except Exception:
+                t = None
+    finally:
+        conf.System.pagesize = old
+        conf.System.aslr = olda
+    if t is None:
+        return None, how
+    return Loaded(t), how
+
+
+def loader_name(L):
+    """e.g. 'baremetal/tricore' for a task of amoco.system.baremetal.tricore."""
+    m = type(L.t).__module__
+    if m.startswith("amoco.system."):
+        m = m[len("amoco.system."):]
+    return m.replace(".", "/")
